@@ -638,6 +638,68 @@ func (e *Eng) runBlock(fr *Frame, b *ssa.BasicBlock, st *State, edgesIn map[*ssa
 			}
 		default:
 			e.step(fr, st, instr)
+			e.compact(fr, st, instr)
+		}
+	}
+}
+
+const compactLimit = 160
+
+// compact names long terms (heap versions and instruction results) by fresh constants with defining
+// equations.  Terms are text: without this, every store or ite is copied into all later formulas and the
+// verification conditions grow multiplicatively.
+func (e *Eng) compact(fr *Frame, st *State, instr ssa.Instruction) {
+	for n, t := range st.heap {
+		if len(t) > compactLimit {
+			c := e.fresh("h|"+n, e.heapNames[n])
+			if !e.collect {
+				e.q.Assert(tEq(c, t))
+			}
+			st.heap[n] = c
+		}
+	}
+	v, ok := instr.(ssa.Value)
+	if !ok {
+		return
+	}
+	val, ok := fr.vals[v]
+	if !ok || val == nil {
+		return
+	}
+	nameIt := func(t T, sort string) T {
+		if len(t) <= compactLimit {
+			return t
+		}
+		c := e.fresh("v_"+v.Name(), sort)
+		if !e.collect {
+			e.q.Assert(tEq(c, t))
+		}
+		return c
+	}
+	switch x := val.(type) {
+	case T:
+		cs := comps(v.Type())
+		if len(cs) == 1 {
+			fr.vals[v] = nameIt(x, cs[0].sort)
+		}
+	case *SliceV:
+		fr.vals[v] = &SliceV{nameIt(x.B, sRef), nameIt(x.O, sI64), nameIt(x.L, sI64), nameIt(x.C, sI64)}
+	case *StrV:
+		if x.Lit == nil {
+			fr.vals[v] = &StrV{B: nameIt(x.B, sRef), O: nameIt(x.O, sI64), L: nameIt(x.L, sI64)}
+		}
+	case *IfaceV:
+		nx := *x
+		nx.Ty, nx.V = nameIt(x.Ty, sTag), nameIt(x.V, sRef)
+		fr.vals[v] = &nx
+	case *PtrV:
+		if x.Kind != pLocal && x.Kind != pGlobal {
+			nx := *x
+			nx.Ref = nameIt(x.Ref, sRef)
+			if x.Kind == pElem {
+				nx.Idx = nameIt(x.Idx, sI64)
+			}
+			fr.vals[v] = &nx
 		}
 	}
 }
